@@ -73,6 +73,7 @@ structure KP where
   done : Option Key           -- `app.is_done` (future has a result) and the key that set it
   applied : List Key          -- key presses handed to the editing bindings of this application
   cprs : Nat                  -- CPR responses reported to the renderer
+  waiting : Nat               -- len(renderer._waiting_for_cpr_futures): CPR requests without answer
 deriving DecidableEq, Repr
 
 /-- `not_empty()` inside `process_keys` -/
@@ -82,7 +83,7 @@ def notEmpty (p : KP) : Bool :=
 /-- `_process_coroutine.send(key)` followed by the binding's handler. -/
 def handle (p : KP) (k : Key) : KP :=
   match k with
-  | .cpr => { p with cprs := p.cprs + 1 }
+  | .cpr => { p with cprs := p.cprs + 1, waiting := p.waiting - 1 }   -- report_absolute_cursor_row: popleft
   | .cj => { p with queue := .accept :: p.queue }          -- feed(ControlM, first=True)
   | .other n => { p with applied := p.applied ++ [.other n] }
   | .accept => if p.done.isSome then p else { p with done := some .accept }
@@ -122,32 +123,56 @@ structure St where
   typeahead : List Key        -- typeahead._buffer[input.typeahead_hash()]
   kp : KP
   running : Bool              -- Application._is_running
+  exiting : Bool              -- `await f` has returned, the application waits for CPR responses
+                              -- (`renderer.wait_for_cpr_responses()`), still attached to the input
+  responds : Bool             -- output.responds_to_cpr (False for DummyOutput)
   results : List Res          -- finished applications, oldest first
 deriving DecidableEq, Repr
 
-def St.init : St :=
-  { pipe := [], typeahead := [], kp := ⟨[], none, [], 0⟩, running := false, results := [] }
+def idleKP : KP := ⟨[], none, [], 0, 0⟩
+
+def St.init (responds : Bool) : St :=
+  { pipe := [], typeahead := [], kp := idleKP, running := false, exiting := false,
+    responds := responds, results := [] }
 
 inductive Ev where
   | write (c : List Key)      -- somebody (other thread, terminal) writes key presses
   | start                     -- `run_async` up to `await f`
   | read (n : Nat)            -- the loop calls `read_from_input`; the read delivers ≤ n keys
-  | finish                    -- `await f` returns; exit path up to `store_typeahead`
+  | finish                    -- `await f` returns; exit path up to `wait_for_cpr_responses` /
+                              -- (when nothing is outstanding) up to `store_typeahead`
+  | endWait                   -- the CPR wait ends (all answers arrived, or its timeout erased the
+                              -- requests); exit path up to `store_typeahead`
 deriving DecidableEq, Repr
+
+/-- the end of the exit path: `store_typeahead(input, key_processor.empty_queue())`, the result is
+    handed to the caller -/
+def leave (s : St) (f : Key) : St :=
+  { s with
+    running := false
+    exiting := false
+    results := s.results ++ [(s.kp.applied, f)]
+    typeahead := s.typeahead ++ dropCpr s.kp.queue
+    kp := idleKP }
 
 def step (s : St) : Ev → St
   | .write c => { s with pipe := s.pipe ++ c }
   | .start =>
-    if s.running then s        -- assert not self._is_running
+    if s.running || s.exiting then s        -- assert not self._is_running / prompt() has not returned
     else
       -- reset(): key_processor.reset() creates a fresh input_queue; new future
       -- feed_multiple(get_typeahead(input)); process_keys()
+      let kp0 := processKeys ⟨s.typeahead, none, [], 0, 0⟩
+      -- _request_absolute_cursor_position(): `if not input_queue and not is_done` a CPR request is
+      -- sent when the output answers such requests
+      let ask := s.responds && kp0.queue.isEmpty && kp0.done.isNone
       { s with
         typeahead := []
         running := true
-        kp := processKeys ⟨s.typeahead, none, [], 0⟩ }
+        kp := { kp0 with waiting := if ask then 1 else 0 } }
   | .read n =>
-    if !s.running then s       -- `if not self._is_running and not waiting_for_cpr: return`
+    -- `if not self._is_running and not self.renderer.waiting_for_cpr: return`
+    if !s.running && !(s.exiting && 0 < s.kp.waiting) then s
     else
       { s with
         pipe := s.pipe.drop n
@@ -155,13 +180,14 @@ def step (s : St) : Ev → St
   | .finish =>
     match s.running, s.kp.done with
     | true, some f =>
-      { s with
-        running := false
-        results := s.results ++ [(s.kp.applied, f)]
-        -- store_typeahead(input, key_processor.empty_queue())
-        typeahead := s.typeahead ++ dropCpr s.kp.queue
-        kp := ⟨[], none, [], 0⟩ }
+      -- self._is_running = False; if self.output.responds_to_cpr: await wait_for_cpr_responses()
+      if s.responds && 0 < s.kp.waiting then { s with running := false, exiting := true }
+      else leave s f
     | _, _ => s                -- `await f` has not returned
+  | .endWait =>
+    match s.exiting, s.kp.done with
+    | true, some f => leave s f
+    | _, _ => s
 
 def run (s : St) : List Ev → St
   | [] => s
